@@ -838,14 +838,28 @@ fn join_chunks(chunks: Vec<Chunk>, options: &FormattingOptions) -> String {
     // Does the current line hold nothing but labels? And did the previous line?
     let mut only_labels = true;
     let mut after_label_line = false;
+    // Is the current line the continuation of a comment that spans several lines?
+    let mut verbatim_line = false;
 
     for (idx, chunk) in chunks.iter().enumerate() {
         if indent.is_none() {
             indent = Some(chunk.indent);
         }
 
-        for str in chunk.str.split_inclusive('\n') {
+        for (piece_idx, str) in chunk.str.split_inclusive('\n').enumerate() {
             let mut ignore = false;
+
+            let inside_comment = piece_idx > 0 && matches!(chunk.ty, Some(ChunkType::Comment)) && {
+                let before: String = chunk.str.split_inclusive('\n').take(piece_idx).collect();
+                before.matches("/*").count() > before.matches("*/").count()
+            };
+            if inside_comment {
+                // The next line of a comment that spans several lines: that is the comment's own text, including the
+                // whitespace it starts with. Moving it would move it further every time.
+                verbatim_line = true;
+                only_labels = false;
+                line = str.to_string();
+            } else {
 
             if !matches!(chunk.ty, Some(ChunkType::Label)) && str != "\n" {
                 only_labels = false;
@@ -877,6 +891,7 @@ fn join_chunks(chunks: Vec<Chunk>, options: &FormattingOptions) -> String {
                 }
                 None => {
                     if str == "\n"
+                        && only_labels
                         && !line.is_empty()
                         && line.len() <= options.whitespace.label_margin
                     {
@@ -924,6 +939,8 @@ fn join_chunks(chunks: Vec<Chunk>, options: &FormattingOptions) -> String {
                         );
                     }
                 }
+            }
+
             }
 
             if (!ignore && str.contains('\n')) || idx == num_chunks - 1 {
@@ -976,7 +993,11 @@ fn join_chunks(chunks: Vec<Chunk>, options: &FormattingOptions) -> String {
                         "{:<indent$}{}",
                         "",
                         line,
-                        indent = indent.unwrap_or_default()
+                        indent = if verbatim_line {
+                            0
+                        } else {
+                            indent.unwrap_or_default()
+                        }
                     )
                     .trim_end()
                     .to_string();
@@ -986,6 +1007,7 @@ fn join_chunks(chunks: Vec<Chunk>, options: &FormattingOptions) -> String {
                 line = "".into();
                 indent = None;
                 only_labels = true;
+                verbatim_line = false;
             }
         }
     }
